@@ -1,5 +1,5 @@
 (* Dispatch.v — one Gallina entry point for both evaluators: a protocol line in, a result line out. *)
-From MRS Require Import Model.Base Model.OpsAddress Model.OpsAmount Model.OpsBasic Model.OpsCodec.
+From MRS Require Import Model.Base Model.OpsAddress Model.OpsAmount Model.OpsBasic Model.OpsCodec Model.OpsJson.
 From Coq Require Import String Ascii.
 Open Scope string_scope.
 
@@ -11,7 +11,8 @@ Definition all_ops : list (string -> list string -> option string) :=
   [ ops_address;
     ops_amount;
     ops_basic;
-    ops_codec ].
+    ops_codec;
+    ops_json ].
 
 Definition run_line (line : string) : string :=
   match words line with
